@@ -122,8 +122,39 @@ func runC15(p *core.Prog, r *core.Report) {
 	r.Rule("C15-R4", "exactly one REQ_BEG before the handler and one REQ_END on every exit (at most one Handle call each, gated by Enabled(Info)); one Error record only when recover() != nil", 3)
 	r.Rule("C15-R5", "attribute agreement: ip, method, path and tid of REQ_BEG and REQ_END come from the same sources; the Error record carries the recovered value and the same tid source", 5)
 	r.Rule("C15-R6", "status recording: ResponseWriter.WriteHeader forwards and records the code on every path; Write records an implicit 200 before forwarding when nothing was recorded; the wrapped writer is touched only by ResponseWriter's methods and ServeHTTP's set/reset", 4)
+	r.Rule("C15-R7", "records are written whole: no log handler shortens the line it has rendered, except back to a length of that line it recorded itself or to zero (so the attributes Relay puts last — request ID, panic value — are not cut off)", 0)
 	r.NotDecided = append(r.NotDecided, "a handler that calls WriteHeader twice, or hijacks the connection", "pairing of BEG/END by ID under concurrency follows from Relay having no shared state besides the logger (C02) and the per-request ID (C05)")
 	r.Trusted = append(r.Trusted, "Go defer LIFO order", "recover() semantics", "net/http ignores a second WriteHeader", "go/ssa")
+
+	// ---- R7: the records Relay writes reach the sink whole, whichever handler is installed: no handler shortens the
+	// line it has rendered (a cut at a size limit drops what Relay puts last: the request ID, the panic value), except
+	// back to a length it has itself recorded (`n := len(*buf)` … `*buf = (*buf)[:n]`) or to zero for reuse
+	{
+		nSl := 0
+		for _, h := range logHandlers(p) {
+			for fn, bufs := range lineBufs(p, h) {
+				sx.Instrs(fn, func(in ssa.Instruction) {
+					sl, ok := in.(*ssa.Slice)
+					if !ok || sl.High == nil || !isLineBufVal(fn, bufs, sl.X, map[ssa.Value]bool{}) {
+						return
+					}
+					if k, isC := sx.ConstInt(sl.High); isC && k == 0 {
+						return
+					}
+					nSl++
+					okLen := true
+					for _, lf := range leaves(sl.High) {
+						c, isCall := lf.(*ssa.Call)
+						if !isCall || !isBuiltin(c, "len") || !isLineBufVal(fn, bufs, c.Call.Args[0], map[ssa.Value]bool{}) {
+							okLen = false
+						}
+					}
+					r.Check(okLen, "C15-R7", h.Name+": the rendered line is shortened only to a recorded length ("+fnName(fn)+")", p.Pos(sl.Pos()), "rewind to an earlier len(*buf)", "the line is cut at "+short(sx.ValPath(sl.High))+", which is not a length of the line recorded earlier: a long record loses its tail — for Relay's records the request ID and the panic value, which come last")
+				})
+			}
+		}
+		_ = nSl
+	}
 
 	lg := p.Named("logger", "Logger")
 	relay := p.Method("logger", "Logger", "Relay")
